@@ -14,14 +14,14 @@ TECHNIQUE = ('runtime monitoring: Arpeggio match hook asserting that no identifi
              'word-boundary semantics for the glued cases')
 RULE = ('exhaustive part: 10 literal shapes (letters, mixed case, underscore, digit inside, unicode, digit-leading, symbol, '
         'symbol+letters, dotted, with space) x 5 followers (space, symbol, letter, digit, underscore) x {ID, INT, regex, '
-        'literal} follower rules; random part: grammars with such literals (C01 generator, rich literal menu), inputs with '
+        'literal} follower rules, and each shape again written with escape sequences (first / last / every word character as \\xNN or \\uNNNN); random part: grammars with such literals (C01 generator, rich literal menu), inputs with '
         'and without glued tokens. Checked: (i) hook: an identifier-like literal never matches when the next character is a '
         'word character; (ii) literals that are not identifier-like match identically with autokwd on and off (hook events '
         'compared); (iii) if the autokwd-off derivation has no identifier-like literal directly followed by a word '
         'character, both settings accept with equal models, otherwise the outcome equals the word-boundary semantics. '
         'distinct = (grammar skeleton, input token kinds); non-trivial = input has a literal glued to a following word character')
 REQUIRED = {'inputs': 300, 'literal_matches_checked': 2000, 'glued_keyword_cases': 50, 'glued_symbol_cases': 30,
-            'on_off_equal_checked': 200, 'exhaustive_cells': 100}
+            'on_off_equal_checked': 200, 'exhaustive_cells': 100, 'escaped_spelling_cells': 40}
 EXHAUSTIVE_CLAIM = True
 ML = None
 
@@ -119,18 +119,29 @@ def exh_space():
     for lit in SHAPES:
         for fol in FOLLOW:
             for nk, nx in NEXT:
-                out.append((lit, fol, nk, nx))
+                out.append((lit, fol, nk, nx, 0))
+    # the same literal written with escape sequences in the grammar (first / last / every word character)
+    for lit in SHAPES:
+        for fol in (' ', 'x', '7', '_'):
+            for variant in (1, 2, 3):
+                out.append((lit, fol, 'ID', 'n=ID', variant))
     return out
 
 
 def run_exh(ctx, sp, k):
-    lit, fol, nk, nx = sp[k]
+    lit, fol, nk, nx, variant = sp[k]
     from tv.refpeg import Assign, Grammar, Lit, Opt, Re, Ref, Rule, Seq
     nxt = {'ID': Assign('n', '=', Ref('ID')), 'INT': Assign('n', '=', Ref('INT')), 'RE': Assign('n', '=', Re(r'\w+')),
            'LIT': Assign('n', '=', Lit('x7_')), 'OPT': Opt(Assign('n', '=', Ref('ID')))}[nk]
     g = Grammar([Rule('Model', Seq([Lit(lit), nxt, Opt(Lit(';'))]))])
-    gtext = RP.pr_grammar(g)
+    RP.LIT_VARIANT = variant
+    try:
+        gtext = RP.pr_grammar(g)
+    finally:
+        RP.LIT_VARIANT = 0
     ctx.count('exhaustive_cells')
+    if variant:
+        ctx.count('escaped_spelling_cells')
     for tail in ('abc', 'x7_', '42', 'x7_ ;', ''):
         for ws_cfg in ({'skipws': True}, {'skipws': False}):
             s = lit + fol + tail
@@ -151,7 +162,11 @@ def _one(ctx, i, rep=None):
     gen_ = G(r, 0.0, pskip=0.15, pws=0.0, pcomment=0.2)
     gen_.lit_style = 'rich'
     g = gen_.grammar()
-    gtext = RP.pr_grammar(g)
+    RP.LIT_VARIANT = r.choice([0, 0, 0, 1, 2, 3])
+    try:
+        gtext = RP.pr_grammar(g)
+    finally:
+        RP.LIT_VARIANT = 0
     cfg = dict(skipws=r.random() < 0.85, ignore_case=r.random() < 0.2)
     skel = P.skeleton(g)
     try:
